@@ -357,10 +357,8 @@ class IPVPNBase(Label):
         return not self.__eq__(other)
 
     def __hash__(self) -> int:
-        # _packed includes everything (labels + RD); use _has_addpath as discriminator
-        if self._has_addpath:
-            return hash(self._packed)
-        return hash(b'disabled' + self._packed)
+        # == is index(), which leaves the labels out: equal routes have to hash alike
+        return hash(self.index())
 
     def __copy__(self) -> Self:
         new = self.__class__.__new__(self.__class__)
